@@ -35,6 +35,11 @@ pub struct Tracker {
 	/// shadow maintenance on/off (off for pure process-crash runs: cheaper)
 	pub keep_shadow: bool,
 	pub sync_events: u64,
+	/// R2 is not evaluated while a nested schedule lets the commit stage apply a further log
+	/// between the cleanup stage's flush and its truncation (tables are then legitimately ahead
+	/// of their synced content for a log that is NOT being reclaimed); the power-loss images of
+	/// that act decide instead
+	pub r2_suspended: bool,
 }
 
 static mut TRACKER: Option<Tracker> = None;
@@ -60,6 +65,7 @@ pub fn start(root: &Path, shadow: &Path, keep_shadow: bool) {
 			in_open: false,
 			keep_shadow,
 			sync_events: 0,
+			r2_suspended: false,
 		});
 	}
 	CALLS.store(0, Ordering::SeqCst);
@@ -70,6 +76,12 @@ pub fn start(root: &Path, shadow: &Path, keep_shadow: bool) {
 
 pub fn stop() {
 	ENABLED.store(false, Ordering::SeqCst);
+}
+
+pub fn set_r2_suspended(v: bool) {
+	if let Some(t) = tracker() {
+		t.r2_suspended = v;
+	}
 }
 
 pub fn set_in_open(v: bool) {
@@ -306,7 +318,9 @@ fn on_truncate_or_unlink(t: &mut Tracker, name: &str, what: &'static str) {
 	if is_log(name) {
 		count(t, if what == "unlink" { "log_unlink" } else { "log_truncate" });
 		// R2: no table / index / ref-count byte may be unsynced when a log disappears
-		if t.keep_shadow {
+		if t.keep_shadow && t.r2_suspended && pv::dbutil::nested_enact_fired() {
+			count(t, "r2_suspended_in_nested_schedule");
+		} else if t.keep_shadow {
 			let files: Vec<String> = std::fs::read_dir(&t.root)
 				.map(|rd| rd.flatten().filter_map(|e| e.file_name().to_str().map(|s| s.to_string())).filter(|n| is_table_like(n)).collect())
 				.unwrap_or_default();
